@@ -332,6 +332,12 @@ def dns_wire_abstract(m: dict) -> bytes:
         b.rr(1, name, 5, 1, 300, b"\x05ab")
     elif rr == "generic":
         b.rr(1, name, 99, 1, 300, b"\x01\x02")
+    elif rr == "dname":
+        b.rr(1, name, 39, 1, 300, R.wire_name([b"new", b"example", b"net"]))
+    elif rr == "mx":
+        b.rr(1, name, 15, 1, 300, b"\x00\x0a" + R.wire_name([b"mx", b"example"]))
+    elif rr == "soa":
+        b.rr(2, name, 6, 1, 300, R.wire_name([b"ns", b"example"]) + R.wire_name([b"root", b"example"]) + struct.pack("!IIIII", 1, 2, 3, 4, 5))
     elif rr == "https":
         b.rr(1, name, 65, 1, 300, b"\x00\x01\x00\x00\x01\x00\x03\x02h2")
     elif rr == "https_hi":
@@ -343,6 +349,66 @@ def dns_wire_abstract(m: dict) -> bytes:
 
 BOUNDS16 = (0, 1, 0x7FFF, 0x8000, 0xFFFF)
 BOUNDS32 = (0, 1, 2 ** 31 - 1, 2 ** 31, 2 ** 32 - 1)
+
+
+def dns_sweep_cases():
+    """Every record TYPE (1..260, the meta/private range ends, everything mitmproxy has a name for) with well-formed RDATA
+    of its own layout (lib/vf/dnsref.LAYOUTS for the name-bearing types, with an ordinary, a hex-looking and the root
+    name), in rotating sections; every CLASS, OPCODE and RCODE value that has or has not a name in mitmproxy's tables."""
+    from vf import dnsref as R
+
+    types = set(range(0, 261)) | {32768, 32769, 65280, 65534, 65535}
+    try:  # concretisation only: make sure every type the code knows by name is in the sweep
+        from mitmproxy.net.dns import types as mtypes
+
+        types |= {v for k, v in vars(mtypes).items() if k.isupper() and isinstance(v, int)}
+    except Exception:
+        pass
+    targets = ([b"new", b"example", b"net"], [b"cafe"], [])
+    out = []
+
+    def msg(sec, rtype, rdata, qclass=1, rclass=1, opcode=0, rcode=0):
+        return R.Builder(id=11, flags=R.flags(qr=1, opcode=opcode, rd=1, ra=1, rcode=rcode)) \
+            .question((b"example", b"com"), 1, qclass).rr(sec, (b"owner", b"example", b"com"), rtype, rclass, 300, rdata).bytes()
+
+    def layout_rdata(layout, target):
+        rd = b""
+        for kind in layout:
+            if kind == "name":
+                rd += R.wire_name(target)
+            elif kind == "str":
+                rd += b"\x03abc"
+            elif kind == "rest":
+                rd += b"\x01\x02"
+            else:
+                rd += {"u8": b"\x01", "u16": b"\x00\x0a", "u32": b"\x00\x00\x00\x07"}[kind]
+        return rd
+
+    for n, t in enumerate(sorted(types)):
+        sec = 1 + n % 3
+        if t in R.LAYOUTS:
+            for target in targets:
+                out.append(("type%d_%s" % (t, b".".join(target).decode() or "root"), msg(sec, t, layout_rdata(R.LAYOUTS[t], target))))
+        elif t == 1:
+            out.append(("type1", msg(sec, t, b"\x01\x02\x03\x04")))
+        elif t == 28:
+            out.append(("type28", msg(sec, t, bytes(range(16)))))
+        elif t == 16:
+            out.append(("type16", msg(sec, t, b"\x05hello\x02hi")))
+        elif t in (64, 65):
+            out.append(("type%d" % t, msg(sec, t, b"\x00\x01" + R.wire_name([b"svc", b"example"]) + b"\x00\x01\x00\x03\x02h2")))
+        elif t == 41:
+            out.append(("type41", msg(3, t, b"\x00\x0a\x00\x02\x01\x02", rclass=1232)))
+        else:
+            out.append(("type%d" % t, msg(sec, t, b"\x01\x02\x03")))
+            if t in (39, 249, 250):  # named types without a dnsref layout get a name-shaped RDATA too
+                out.append(("type%d_name" % t, msg(sec, t, R.wire_name([b"new", b"example"]))))
+    for c in (0, 1, 2, 3, 4, 5, 253, 254, 255, 256, 1232, 65535):
+        out.append(("class%d" % c, msg(1, 1, b"\x01\x02\x03\x04", qclass=c, rclass=c)))
+    for v in range(16):
+        out.append(("opcode%d" % v, msg(1, 1, b"\x01\x02\x03\x04", opcode=v)))
+        out.append(("rcode%d" % v, msg(1, 1, b"\x01\x02\x03\x04", rcode=v)))
+    return out
 
 
 def dns_boundary_cases():
@@ -739,8 +805,9 @@ class Check(core.PropertyCheck):
         regs = stub_registries(tier)
         quick = tier == "quick"
         dns = [{"z": z, "q": q, "rr": rr} for z in (0, 2) for q in (("plain", "dot") if quick else ("plain", "dot", "ctl", "upper", "none"))
-               for rr in (("none", "a", "txt", "txt_bad", "cname", "cname_bad", "https", "https_hi") if quick else
-                          ("none", "a", "txt", "txt_bad", "cname", "cname_bad", "generic", "https", "https_hi", "opt"))]
+               for rr in (("none", "a", "txt", "txt_bad", "cname", "cname_bad", "https", "https_hi", "dname", "mx") if quick else
+                          ("none", "a", "txt", "txt_bad", "cname", "cname_bad", "generic", "https", "https_hi", "opt",
+                           "dname", "mx", "soa"))]
         real = [{"id": n, "mode": m, "out": o} for (n, m, o) in (self.real_cases or [])]
         return {"StubRegs": frozenset(tuple(_FD(d) for d in r) for r in regs),
                 "RealCases": frozenset(_FD(r) for r in real),
@@ -798,6 +865,8 @@ class Check(core.PropertyCheck):
                 yield core.Scenario({"kind": "entry", "entry": ei, "c": c, "v": rng.randrange(100), "view": "auto"}, source="suite")
         for _ in range(n_real):
             yield core.Scenario({"kind": "fuzz", "seed": rng.randrange(1 << 30)}, source="random")
+        for i, (_name, _w) in enumerate(dns_sweep_cases()):   # every record type / class / opcode / rcode, rotating transports
+            yield core.Scenario({"kind": "dnss", "case": i, "transport": ("udp", "tcp", "dnsmsg")[i % 3]}, source="suite")
         for i, (_name, _w) in enumerate(dns_boundary_cases()):   # boundary values of every integer field, all transports
             for tr in ("udp", "tcp", "dnsmsg"):
                 yield core.Scenario({"kind": "dnsb", "case": i, "transport": tr}, source="suite")
@@ -827,6 +896,8 @@ class Check(core.PropertyCheck):
                                "out": None, "entry": sc["entry"], "c": sc["c"], "v": sc["v"], "extra_variants": True})
         if k == "dns":
             return dns_roundtrip(dns_wire_abstract(sc["m"]), sc["transport"], inctl=sc["m"]["q"] == "ctl")
+        if k == "dnss":
+            return dns_roundtrip(dns_sweep_cases()[sc["case"]][1], sc["transport"])
         if k == "dnsb":
             return dns_roundtrip(dns_boundary_cases()[sc["case"]][1], sc["transport"])
         if k == "dnsfuzz":
